@@ -189,11 +189,13 @@ QS = [None, "0.1", "0.5", "0.9"]
 DEFAULT = SUPPORTED[1]
 
 
-def render(elements, ows):
-    """elements: [(type, q)]; ows = (after comma, before semicolon, after semicolon) each '' or ' '."""
+def render(elements, ows, param=None):
+    """elements: [(type, q)]; ows = (after comma, before semicolon, after semicolon) each '' or ' ';
+    param: optional media-type parameter written before the weight of every element (RFC 7231: parameters precede q)."""
     parts = []
     for t, q in elements:
-        parts.append(t if q is None else f"{t}{ows[1]};{ows[2]}q={q}")
+        mt = t if param is None else f"{t}{ows[1]};{ows[2]}{param}"
+        parts.append(mt if q is None else f"{mt}{ows[1]};{ows[2]}q={q}")
     return ("," + ows[0]).join(parts)
 
 
@@ -216,10 +218,10 @@ def reference_negotiation(header):
     return {t for t, q in best.items() if q == top}
 
 
-def check_header(elements, ows):
+def check_header(elements, ows, param=None):
     from curies.mapping_service.utils import handle_header
 
-    header = render(elements, ows)
+    header = render(elements, ows, param)
     allowed = reference_negotiation(header)
     try:
         got = handle_header(header)
@@ -266,8 +268,38 @@ def check_header_via_web(header):
     return fails
 
 
+SKOS = "http://www.w3.org/2004/02/skos/core#exactMatch"
+
+
+def check_predicates(ctx=None):
+    """A graph configured with explicit predicates answers over exactly those (owl:sameAs only when configured)."""
+    from curies.mapping_service import MappingServiceGraph, MappingServiceSPARQLProcessor
+
+    fails = []
+    model = Model(CONVERTERS[0], ":")
+    u = "http://p/CHEBI_1"
+    for config, configured in ((None, {OWL_SAMEAS}), (SKOS, {SKOS}), ([SKOS], {SKOS}), ([SKOS, OTHER_PRED], {SKOS, OTHER_PRED}), ([OWL_SAMEAS, SKOS], {OWL_SAMEAS, SKOS}), (OWL_SAMEAS, {OWL_SAMEAS})):
+        conv = Converter([to_record(r) for r in CONVERTERS[0]])
+        graph = MappingServiceGraph(converter=conv, predicates=config)
+        proc = MappingServiceSPARQLProcessor(graph=graph)
+        for pred in (OWL_SAMEAS, SKOS, OTHER_PRED):
+            for direction in ("s", "o"):
+                for placement in ("inside", "after"):
+                    free = "o" if direction == "s" else "s"
+                    q = sparql(u, direction, placement, pred)
+                    got = {str(getattr(r, free)) for r in graph.query(q, processor=proc)}
+                    want = expected(model, u, OWL_SAMEAS) if pred in configured else set()
+                    if ctx is not None:
+                        ctx.count("transitions")
+                        ctx.count("predicate_configurations")
+                    if got != want:
+                        kind = "answers-over-a-predicate-that-is-not-configured" if not want else "no-answer-over-a-configured-predicate"
+                        fails.append((f"sparql/{kind}", f"graph configured with predicates={config!r}: {q} -> {sorted(got)}, expected {sorted(want)}"))
+    return fails
+
+
 def units(tier, seed):
-    us = []
+    us = [{"kind": "predicates"}]
     for ci in range(len(CONVERTERS)):
         U = uris_for(Model(CONVERTERS[ci], ":"))
         for ch in chunks(U, 4):
@@ -297,6 +329,9 @@ def run_unit(unit, ctx):
                         for sig, msg in fails[:2]:
                             ctx.violation("C18/" + sig, msg, case)
         ctx.sample({"kind": "sparql", "conv": ci, "query": sparql(unit["uris"][0], "s", "after", OWL_SAMEAS)})
+    elif k == "predicates":
+        for sig, msg in check_predicates(ctx)[:2]:
+            ctx.violation("C18/" + sig, msg, {"kind": "predicates"})
     elif k == "mutate":
         fails = check_after_mutation(unit["conv"], ctx)
         for sig, msg in fails[:2]:
@@ -313,6 +348,12 @@ def run_unit(unit, ctx):
                     if n == 1 and ows[0]:
                         continue
                     fails, header = check_header(combo, ows)
+                    if n <= 2 and not fails:
+                        # media-type parameters precede the weight (RFC 7231 5.3.2): they must not hide it
+                        f2, h2 = check_header(combo, ows, "charset=utf-8")
+                        ctx.count("headers_with_media_type_parameter")
+                        if f2:
+                            ctx.violation("C18/" + f2[0][0].replace("accept/", "accept/with-media-type-parameter/"), f2[0][1], {"kind": "accept", "elements": [list(e) for e in combo], "ows": list(ows), "param": "charset=utf-8"})
                     ctx.count("headers")
                     ctx.count("evaluations")
                     ctx.state(hash(header))
@@ -355,11 +396,15 @@ def replay(case):
     k = case["kind"]
     if k == "sparql":
         f = check_query(case["conv"], case["uri"], case["direction"], case["placement"], case["pred"])
+    elif k == "predicates":
+        f = check_predicates()
     elif k == "mutate":
         _SERVICES.pop(case["conv"], None)
         f = check_after_mutation(case["conv"])
     elif k == "accept":
-        f, _ = check_header(tuple(tuple(e) for e in case["elements"]), tuple(case["ows"]))
+        f, _ = check_header(tuple(tuple(e) for e in case["elements"]), tuple(case["ows"]), case.get("param"))
+        if case.get("param"):
+            f = [(s_.replace("accept/", "accept/with-media-type-parameter/"), m_) for s_, m_ in f]
     elif k == "accept-web":
         f = check_header_via_web(case["header"])
     else:
@@ -375,16 +420,16 @@ def describe(tier):
         "rule": "(a) 4 converters (nested URI prefixes, URI synonyms nested inside other records' prefixes, CURIE synonyms) x every URI prefix "
         "followed by '1', '', 'x/y' and shortened by one character + 2 unrecognised URIs x ?s/?o bound x VALUES inside/after WHERE x "
         "{owl:sameAs, other predicate} x {graph, Flask GET, Flask POST, FastAPI GET}; then twice: query, add a URI synonym to the live "
-        "converter, query again; (b) all Accept headers of 1..3 distinct media types from 3 supported + 5 synonyms + text/html + */* x q in "
+        "converter, query again; graphs configured with 6 explicit predicate sets x 3 queried predicates; (b) all Accept headers of 1..3 distinct media types from 3 supported + 5 synonyms + text/html + */* x q in "
         "{absent,0.1,0.5,0.9} x 8 optional-whitespace placements; 1/3 of the 2-element headers also through both web frameworks; "
         "distinct_nontrivial = queries with >= 2 equivalent renderings + headers whose winner is a supported type chosen by q",
         "bounds": {"accept_elements": 3, "media_types": len(TYPES), "q_values": QS},
         "exhaustive": True,
-        "assumptions": ["URI prefixes are valid IRI text (as quantified)", "q=0 and media-type parameters other than q are outside the alphabet",
+        "assumptions": ["URI prefixes are valid IRI text (as quantified)", "q=0 is outside the alphabet; the only media-type parameter exercised is charset=utf-8 written before the weight (1- and 2-element headers)",
                         "FastAPI POST cannot be exercised: python-multipart is not installed (a stub lets the router be constructed for GET)",
                         "ties between different supported types with equal q: any of them is accepted", "a header listing the very same media type twice is ambiguous and excluded"],
     }
 
 
 def required_counters(tier):
-    return ["validated", "headers", "headers_with_optional_whitespace", "headers_via_web", "queries_with_synonym_renderings", "queries_expecting_nothing", "mutations_between_queries"] + ["requests_" + t for t in TRANSPORTS]
+    return ["validated", "headers", "headers_with_optional_whitespace", "headers_via_web", "headers_with_media_type_parameter", "predicate_configurations", "queries_with_synonym_renderings", "queries_expecting_nothing", "mutations_between_queries"] + ["requests_" + t for t in TRANSPORTS]
